@@ -256,6 +256,12 @@ func (ex *Exec) havocMods(fr *frame, st *State, reach *Term, ms *modSet, entry *
 		old := ex.comp(st, name, s)
 		nv := ex.vc.FreshConst(name, s)
 		st.heap[name] = nv
+		if !ms.nonfresh[name] && s.IsArray() && s.IndexSort() == SInt && !strings.HasPrefix(name, "IT.") {
+			// written only at objects allocated inside the loop: everything that existed at loop entry is unchanged
+			r := Sym("r!q", SInt)
+			ex.vc.Assume(reach, Forall([]*Term{r}, Implies(Select(ex.alive(entry), r), Eq(Select(nv, r), Select(old, r)))))
+			continue
+		}
 		if precise && s.IsArray() && s.IndexSort() == SInt && !strings.HasPrefix(name, "IT.") {
 			// locations not listed keep their value (for objects allocated before the loop)
 			r := Sym("r!q", SInt)
@@ -405,8 +411,13 @@ func (ex *Exec) applyContract(fr *frame, st *State, reach *Term, fn *ssa.Functio
 				if s == "" {
 					s = ex.compSorts[name]
 				}
-				ex.comp(st, name, s)
-				st.heap[name] = ex.vc.FreshConst(name, s)
+				oldc := ex.comp(st, name, s)
+				nv := ex.vc.FreshConst(name, s)
+				st.heap[name] = nv
+				if !ms.nonfresh[name] && s.IsArray() && s.IndexSort() == SInt {
+					r := Sym("r!q", SInt)
+					ex.vc.Assume(reach, Forall([]*Term{r}, Implies(Select(ex.alive(pre), r), Eq(Select(nv, r), Select(oldc, r)))))
+				}
 			}
 		}
 	}
@@ -497,7 +508,7 @@ type FuncResult struct {
 }
 
 func newExec(eng *Engine, vc *VC, fn *ssa.Function, fc *FuncContract) *Exec {
-	ex := &Exec{eng: eng, vc: vc, top: fn, topC: fc, compSorts: map[string]Sort{}, callN: map[string]int{}, safeN: map[string]int{}, inlineMax: 5}
+	ex := &Exec{eng: eng, vc: vc, top: fn, topC: fc, compSorts: map[string]Sort{}, callN: map[string]int{}, safeN: map[string]int{}, inlineMax: 5, assertsHit: map[string]bool{}}
 	if fc != nil {
 		if _, ok := fc.Opts["safety"]; ok {
 			ex.safety = true
@@ -607,6 +618,11 @@ func (eng *Engine) VerifyFunc(fn *ssa.Function, fc *FuncContract) (res *FuncResu
 	vc.Oblige(&Obligation{Name: name + "/pre-sat", Kind: "pre-sat", Tags: res.Tags, Guard: TTrue, Goal: TFalse, WantSat: true, Func: name, Note: "precondition and typing assumptions are satisfiable (vacuity guard)"})
 	ex.stack = nil
 	exits := ex.runBody(fr, st0, TTrue)
+	for ai, a := range fc.Asserts {
+		if !ex.assertsHit[fmt.Sprintf("%s#%d", funcKey(fn), ai)] {
+			panic(unsupported(fmt.Sprintf("assert anchor %q (%s:%d) matches no reachable statement of %s", a.Anchor, a.Clause.File, a.Clause.Line, name)))
+		}
+	}
 	nret := 0
 	npanic := 0
 	for _, x := range exits {
